@@ -42,6 +42,77 @@ fn class_of(module: &str, on: bool) -> String {
   long(module.rsplit('.').next().unwrap(), on)
 }
 
+/// A module that uses every syntactic construct once, each with its own identifiers (so that a
+/// name often has a single occurrence: a binder nobody reads, a field named only in a pattern, a
+/// type parameter used once). With `lng` all identifiers are longer than 15 bytes and live in the
+/// collected part of the heap. The text parses; it need not type check.
+pub fn zoo(rng: &mut Rng, c: &str, other: &str, oc: &str, lng: bool) -> String {
+  let mut k = 0usize;
+  let mut id = |stem: &str| {
+    k += 1;
+    if lng { format!("{stem}{k}WithAVeryLongSuffix") } else { format!("{stem}{k}") }
+  };
+  let up = |s: String| {
+    let mut cs = s.chars();
+    cs.next().map(|f| f.to_ascii_uppercase().to_string() + cs.as_str()).unwrap_or_default()
+  };
+  let en = up(id("choice"));
+  let (va, vb, vc) = (up(id("empty")), up(id("single")), up(id("pair")));
+  let st = up(id("record"));
+  let (f1, f2) = (id("first"), id("second"));
+  let itf = up(id("shape"));
+  let tp = up(id("elem"));
+  let mut members: Vec<String> = Vec::new();
+  let m = |members: &mut Vec<String>, text: String| members.push(text);
+  // if-let with variant / tuple / object patterns; binders unused or used
+  m(&mut members, format!("  function {}({}: {en}): int = if let {vb}({}) = {} {{ 1 }} else {{ 2 }}", id("iflet"), { let p = id("arg"); p.clone() }, id("unusedBinder"), "Zz"));
+  let (p1, b1) = (id("arg"), id("usedBinder"));
+  m(&mut members, format!("  function {}({p1}: {en}): int = if let {vb}({b1}) = {p1} {{ {b1} }} else {{ 2 }}", id("iflet")));
+  let (p2, b2, b3) = (id("arg"), id("left"), id("right"));
+  m(&mut members, format!("  function {}({p2}: Pair<int, Str>): int = if let ({b2}, {b3}) = {p2} {{ 3 }} else {{ 4 }}", id("iflet")));
+  let (p3, b4) = (id("arg"), id("renamed"));
+  m(&mut members, format!("  function {}({p3}: {st}): int = if let {{ {f1} as {b4}, {f2} }} = {p3} {{ 5 }} else {{ 6 }}", id("iflet")));
+  // match with or-patterns, nested patterns, wildcard, unused binders
+  let (p4, b5, b6, b7) = (id("arg"), id("inner"), id("fst"), id("snd"));
+  m(&mut members, format!("  function {}({p4}: {en}): int = match {p4} {{ {va} -> 0, {vb}({b5}) -> 1, {vc}({b6}, {b7}) -> 2 }}", id("matcher")));
+  let (p5, b8) = (id("arg"), id("shared"));
+  m(&mut members, format!("  function {}({p5}: {en}): int = match {p5} {{ {vb}({b8}) | {vc}({b8}, _) -> {b8}, _ -> 7 }}", id("matcher")));
+  let (p6, b9) = (id("arg"), id("deep"));
+  m(&mut members, format!("  function {}({p6}: Pair<{en}, {st}>): int = match {p6} {{ ({vc}(_, {b9}), {{ {f1}, {f2} as _ }}) -> 8, _ -> 9 }}", id("matcher")));
+  // let destructuring, annotations, lambdas, function types
+  let (l1, l2, l3, l4, l5, l6) = (id("local"), id("local"), id("local"), id("lambdaParam"), id("lambdaParam"), id("local"));
+  m(
+    &mut members,
+    format!(
+      "  function {}(): int = {{\n    let ({l1}, {l2}) = (1, true);\n    let {{ {f1} as {l3} }}: {st} = {st}.init(1, \"a string literal that is long enough\");\n    let {l6}: (int, Str) -> int = ({l4}: int, {l5}: Str) -> {l4};\n    let _ = ({}) -> 10;\n    {l6}({l1}, \"another long string literal value\")\n  }}",
+      id("block"),
+      id("untypedParam")
+    ),
+  );
+  // generics, bounds, explicit type arguments, method chains, this, private members
+  let (g1, g2, p7, p8) = (up(id("typeParam")), up(id("typeParam")), id("arg"), id("arg"));
+  let genf = id("generic");
+  m(&mut members, format!("  function <{g1}: {itf}, {g2}> {genf}({p7}: {g1}, {p8}: ({g1}) -> {g2}): {g2} = {p8}({p7})"));
+  m(&mut members, format!("  function {}(): int = {c}.{genf}<{st}, int>({st}.init(2, \"s\"), ({}) -> 11)", id("caller"), id("lambdaParam")));
+  let (pm, p9) = (id("hidden"), id("arg"));
+  m(&mut members, format!("  private method {pm}({p9}: int): int = this.{pm}({p9} - 1)"));
+  m(&mut members, format!("  method {}(): Str = {oc}.{}().{}(\"text\") :: \"a string literal that is long enough\"", id("chain"), id("staticMember"), id("instanceMember")));
+  // comments of every kind
+  m(&mut members, format!("  /** documentation comment that is longer than fifteen bytes */\n  function {}(): unit = {{ /* block comment that is long enough */ }} // trailing line comment, long", id("documented")));
+  rng.shuffle(&mut members);
+  let keep = 4 + rng.below(members.len() - 3);
+  members.truncate(keep);
+  let imports = if rng.chance(3, 4) { format!("import {{ {oc} }} from {other}\n") } else { String::new() };
+  format!(
+    "{imports}interface {itf}<{tp}> {{\n  method {}({}: {tp}): {tp}\n}}\nclass {en}({va}, {vb}(int), {vc}(int, Str)) {{}}\nclass {st}(val {f1}: int, val {f2}: Str) : {itf}<int> {{\n  method {}({}: int): int = this.{f1}\n}}\nclass {c} {{\n{}\n}}\n",
+    id("required"),
+    id("arg"),
+    id("required"),
+    id("arg"),
+    members.join("\n")
+  )
+}
+
 /// module contents; `others` are module names that may be imported
 pub fn content(rng: &mut Rng, me: &str, others: &[&str], lng: bool) -> String {
   let c = class_of(me, lng);
@@ -55,7 +126,8 @@ pub fn content(rng: &mut Rng, me: &str, others: &[&str], lng: bool) -> String {
   let fld = long("field", lng);
   let tp = if lng { "TypeParamWithLongName" } else { "T" };
   let imp = |names: &str, from: &str| format!("import {{ {names} }} from {from}\n");
-  match rng.below(16) {
+  match rng.below(21) {
+    16..=20 => zoo(rng, &c, other, &oc, lng),
     // exporter with member f returning int
     0 => format!("class {c} {{\n  function {f}(): int = 1\n  function {g}({p}: int, {q}: Str): int = {p}\n}}\n"),
     // exporter where f is missing / has another type
